@@ -9,7 +9,10 @@ package main
 //   - CHA-versus-VTA reachability comparison for the effect rules.
 
 import (
+	"runtime"
+
 	"encoding/json"
+	"fitcheck/rewrite"
 	"fmt"
 	"go/types"
 	"os"
@@ -57,7 +60,7 @@ func thoroughExtras(c *Ctx, r *Report, p *propDef, verif string) {
 		// the catalogue is looked up next to the real /verif when running from a scratch evidence dir
 		cat = loadCatalogue("/verif")
 	}
-	max := 6
+	max := 40 // in practice: every catalogue mutant that names the property
 	ran, caught, skipped := 0, 0, 0
 	var details []string
 	for _, m := range cat {
@@ -129,6 +132,7 @@ func thoroughExtras(c *Ctx, r *Report, p *propDef, verif string) {
 		}
 	}
 	r.set("positive_controls", details)
+	thoroughNegativeControls(c, r, p, verif)
 	if ran > 0 && caught == ran {
 		r.ok("thorough-positive-control", "catalogue", "", fmt.Sprintf("%d of %d in-memory mutants of the catalogue reported (%d skipped)", caught, ran, skipped))
 	}
@@ -275,4 +279,65 @@ func thoroughFuzzTag(c *Ctx, r *Report) {
 		}
 	}
 	r.check(calls["Decode"] && calls["Encode"] && len(calls) == 2, "thorough-gofuzz", "Fuzz/scope", cf.pos(fz.Pos()), "Fuzz only composes Decode and Encode: its behaviour is covered by the C01 and C07 censuses", fmt.Sprintf("Fuzz calls %v", calls))
+}
+
+// thoroughNegativeControls: the working tree is rewritten in memory by each mechanical
+// behaviour-preserving rewrite (rewrite package: rename every local, spell out compound
+// assignments, negate if/else tests, swap the operands of pure commutative integer operations)
+// and the property's rules are run on the result: apart from the known findings nothing may be
+// reported. A rule that depends on a spelling shows up here on every thorough run.
+func thoroughNegativeControls(c *Ctx, r *Report, p *propDef, verif string) {
+	env := append(os.Environ(), "GOFLAGS=-mod=mod", "GOPROXY=off", "GOSUMDB=off", "GOTOOLCHAIN=local", "GOWORK=off")
+	known, _ := loadKnown(verif)
+	if len(known) == 0 {
+		known, _ = loadKnown("/verif")
+	}
+	kidx := map[string]bool{}
+	for _, k := range known {
+		if k.Property == p.id && k.Status == "known" {
+			kidx[k.Rule+"|"+k.Key] = true
+		}
+	}
+	var details []string
+	for _, mode := range []string{"rename-locals", "swap-operands", "negate", "compound"} {
+		ov, n, err := rewrite.Apply(c.repo, env, mode)
+		if err != nil {
+			r.fail("thorough-negative-control", mode, "", "rewrite failed: "+firstLine(err.Error()))
+			continue
+		}
+		mc, err := loadOverlay(c.repo, "quick", nil, nil, ov)
+		if err != nil {
+			r.fail("thorough-negative-control", mode, "", "rewritten tree does not load: "+firstLine(err.Error()))
+			continue
+		}
+		mr := newReport(p, "quick", verif)
+		func() {
+			defer func() {
+				if e := recover(); e != nil {
+					mr.fail("internal", "checker-panic", "", fmt.Sprint(e))
+				}
+			}()
+			p.run(mc, mr)
+		}()
+		for _, f := range mr.floors {
+			if f.got < f.min {
+				mr.fail("vacuity", f.what, "", "floor not reached on the rewritten tree")
+			}
+		}
+		bad := ""
+		for _, o := range mr.obls {
+			if (o.Status == "violation" && !kidx[o.Rule+"|"+o.Key]) || o.Status == "undecided" {
+				bad = o.Rule + " " + o.Key
+				break
+			}
+		}
+		if bad != "" {
+			r.fail("thorough-negative-control", mode, "", fmt.Sprintf("after the behaviour-preserving rewrite %q (%d edits) the rules of %s report %s: that rule depends on a spelling", mode, n, p.id, bad))
+		} else {
+			r.ok("thorough-negative-control", mode, "", fmt.Sprintf("%d edits, nothing reported beyond the known findings", n))
+		}
+		details = append(details, fmt.Sprintf("%s: %d edits", mode, n))
+		runtime.GC()
+	}
+	r.set("negative_controls", details)
 }
